@@ -2,6 +2,7 @@ import KtVerif.Model.Kmer
 import KtVerif.Model.Minimiser
 import KtVerif.Model.Vectors
 import KtVerif.Model.Fasta
+import KtVerif.DriverSched
 /-!
 # Driver glue (trusted, thin): parsing of request lines, printing of answers.
 
@@ -214,7 +215,10 @@ def answerWords (c : Cache) : List String → Cache × String
   | ws =>
     match answerIo ws with
     | some a => (c, a)
-    | none => (c, answerWords0 ws)
+    | none =>
+      match KT.DriverSched.answer ws with
+      | some a => (c, a)
+      | none => (c, answerWords0 ws)
 
 def answer (c : Cache) (line : String) : Cache × String :=
   answerWords c ((line.trimAscii.toString.splitOn " ").filter (· ≠ ""))
